@@ -401,6 +401,9 @@ func needsDupCheck(ix schema.Index, rec core.Record) bool {
 
 func uniqueIndexEmpty(rec core.Record, is ixkey.Spec) bool {
 	for _, f := range is.Fields {
+		if f < 0 {
+			f = -f - 2 // _lower!
+		}
 		if rec.GetRaw(f) != "" {
 			return false
 		}
